@@ -71,7 +71,7 @@ def gen(rng, tier, k):
             preds = [[rng.choice(NUMERIC), rng.choice(["<", "<=", ">", ">=", "=="]), rng.choice([0, 1, 2, 3, 100.0, 250.0, 500.0, 1000.0, 120.0, 4])] for _ in range(np_)]
             tg = rng.sample(cols, rng.choice([1, 1, 2]))
             ops.append(dict(kind="loc", preds=preds, targets=tg, opr=rng.choice("+-*/"), v=rng.choice([1, 2, 0.5, 10, -3]), restack=restack,
-                            single_str=len(tg) == 1 and rng.random() < 0.5))
+                            single_str=len(tg) == 1 and rng.random() < 0.5, mask_order=rng.choice([None, None, "sorted", "reversed"])))
     include = rng.choice([None, None, None, ["HitList"], ["HoldList", "BpmList"], ["NoteList"]])
     return dict(cls="mapset" if game in ("sm", "o2j") and rng.random() < 0.5 else "map", spec=spec, history=hist, ops=ops, include=include)
 
@@ -150,6 +150,10 @@ def do_op(stack, op):
             m = CMP[cm](stack[c], th)
             mask = m if mask is None else (mask & m)
         cols = op["targets"][0] if op["single_str"] else list(op["targets"])
+        if op.get("mask_order") == "sorted":
+            mask = mask.loc[stack["offset"].sort_values().index]   # a boolean Series selects by its labels, whatever order it is in
+        elif op.get("mask_order") == "reversed":
+            mask = mask.iloc[::-1]
         cur = stack.loc[mask, cols]
         stack.loc[mask, cols] = OPS[op["opr"]](cur, op["v"])
 
